@@ -133,3 +133,10 @@ func (c *CaseC05) Eval(ob *Obs) []Finding {
 	}
 	return out
 }
+
+func (c *CaseC05) base() *CLIBase { return &c.Base }
+func (c *CaseC05) clone() baseCase {
+	d := *c
+	d.Variants = append([]VariantC05{}, c.Variants...)
+	return &d
+}
